@@ -7,7 +7,15 @@
      spec_c08sat <cty> <val>   -> true | false                                            (the Spec)
      c08safe <w> <cty>         -> true | false      (inside the region where check_exact is proved)
      c08repr <w> <cty> <val>   -> true | false      (every INTEGER fits the C type asn1c chose)
-     c08clamp <maxlen> <vlen>  -> NONE | <errlen> <nulpos>                                (_asn_i_ctfailcb) *)
+     c08clamp <maxlen> <vlen>  -> NONE | <errlen> <nulpos>                                (_asn_i_ctfailcb)
+     c08set <w> <cty s{..}> <val S{..}> <map>  -> OK | FAIL <why>      SET_constraint on the SET with these members, the structure
+                                 holding these slots and this _presence_map: map := dec (as a decoder leaves it) | hb (built by
+                                 assignment: all clear) | <0|1>* (one bit per member)
+     c08setpm ...              the same through the variant that consults the map (not the C; for the witnesses)
+     u8len <hex|-|NULL>        -> <ssize_t>           UTF8String_length
+     u8chk <hex|-|NULL>        -> 0 | -1              UTF8String_constraint
+     u8wcs <hex|-> <dstlen>    -> <ret> <cell,...|->  UTF8String_to_wcs: the cells of dst written, in order
+     spec_u8unicode <hex|->    -> true | false        well-formed UTF-8 of the Unicode standard (table 3-7) *)
 open Model
 open Drvlib
 
@@ -110,4 +118,19 @@ let dispatch cmd args =
       Some (match ctfail_clamp (cz_of_string m) (cz_of_string v) with
             | None -> "NONE"
             | Some (l, n) -> string_of_cz l ^ " " ^ string_of_cz n)
+  | ("c08set" | "c08setpm"), [w; t; v; m] ->
+      let ms = (match ty_of t with CSeq ms -> ms | _ -> raise (Parse "SET members expected")) in
+      let vs = (match val_of v with VSeq vs -> vs | _ -> raise (Parse "S{..} expected")) in
+      let st = (match m with
+                | "dec" -> decoded vs
+                | "hb" -> hand_built vs
+                | bits -> with_map vs (List.init (String.length bits) (fun i -> bits.[i] = '1'))) in
+      Some (res_s (if cmd = "c08set" then set_constraint (w = "1") ms st
+                   else set_walk_pm (fun m x -> chk (w = "1") m true x) ms st))
+  | "u8len", [h] -> Some (string_of_cz (utf8_length (if h = "NULL" then None else Some (bytes_of_hex h))))
+  | "u8chk", [h] -> Some (string_of_cz (utf8_constraint (if h = "NULL" then None else Some (bytes_of_hex h))))
+  | "u8wcs", [h; n] ->
+      let (r, cells) = utf8_to_wcs (bytes_of_hex h) (nat_of_int (int_of_string n)) in
+      Some (string_of_cz r ^ " " ^ (if cells = [] then "-" else String.concat "," (List.map string_of_cz cells)))
+  | "spec_u8unicode", [h] -> Some (bool_s (uwf (bytes_of_hex h)))
   | _ -> None
